@@ -94,7 +94,31 @@ func runLBDist(x *X) {
 	nHist := c.Intn(6, "nhist")
 	freshPool := nHist == 0
 	for i := 0; i < nHist && !x.dead; i++ {
-		switch c.Pick([]int{3, 3, 3, 2, 3}, "hist") {
+		switch c.Pick([]int{3, 3, 3, 2, 3, 3}, "hist") {
+		case 5: // traffic that leaves the running weights mid-cycle, then the heaviest member goes away
+			if len(members) <= 1 {
+				continue
+			}
+			tw := 0
+			k := 0
+			for j, m := range members {
+				tw += eff(m.weight)
+				if eff(m.weight) > eff(members[k].weight) {
+					k = j
+				}
+			}
+			n := 1 + c.Intn(2*tw, "pre-traffic")
+			for j := 0; j < n && !x.dead; j++ {
+				oneReq("192.0.2.1")
+			}
+			m := members[k]
+			x.Do("remove", func() { h.lb.RemoveBackend(m.name) }, onErr)
+			net.mu.Lock()
+			net.byName[m.name].removed = true
+			net.mu.Unlock()
+			members = append(members[:k], members[k+1:]...)
+			delete(ejectedUntil, m.name)
+			hist = append(hist, fmt.Sprintf("traffic(%d)+remove-heaviest(%s)", n, m.name))
 		case 0: // add
 			if len(members) >= 8 {
 				continue
